@@ -95,7 +95,19 @@ def _run(chk, pid, tier, seed):
     except MachineryError as ex:
         print("MACHINERY-ERROR %s: %s" % (pid, ex))
         sys.exit(2)
-    except Exception:
+    except Exception as ex:
+        # An exception escaping from rig itself at a point where the driver expected none: on the unchanged tree the
+        # drivers run to completion, so this is the code under test misbehaving (e.g. a KeyError deep inside a
+        # helper), not the machinery.  Anything raised by the harness's own code stays a machinery error.
+        tb = traceback.extract_tb(ex.__traceback__)
+        from .core import RIG_ROOT
+        if tb and os.path.abspath(tb[-1].filename).startswith(os.path.abspath(RIG_ROOT) + os.sep):
+            where = "%s:%s" % (os.path.relpath(tb[-1].filename, RIG_ROOT), tb[-1].name)
+            chk.violation("unexpected %s raised in %s" % (type(ex).__name__, where),
+                          "rig raised %s (%s) in %s while the %s driver was exercising it; on the unchanged tree "
+                          "this call completes" % (type(ex).__name__, ex, where, pid),
+                          dict(traceback=traceback.format_exc()))
+            sys.exit(chk.finish())
         traceback.print_exc()
         print("MACHINERY-ERROR %s: unexpected exception in the harness" % pid)
         sys.exit(2)
